@@ -309,6 +309,13 @@ func (e *env) entriesOfDoc(data []byte) []string {
 	return out
 }
 
+func copyFile(from, to string) {
+	b, err := os.ReadFile(from)
+	if err == nil {
+		os.WriteFile(to, b, 0644)
+	}
+}
+
 func subset(a, b []string) (bool, string) {
 	set := map[string]bool{}
 	for _, x := range b {
@@ -465,6 +472,43 @@ func roundtrip(v9 bool, tier string) mck.Space {
 			cb, errb := e.entries(e.load(pb))
 			if errb != nil || strings.Join(cb, "\n") != strings.Join(a, "\n") {
 				c.Violation(proto(v9)+":roundtrip:overwrite-of-longer-file", fmt.Sprintf("saved %d templates over a file that held %d: loaded %d", len(a), len(big.tpls), len(cb)), what())
+			}
+		}
+		// a run that starts from the file and only RE-DEFINES templates it already holds (no new exporter, no
+		// new id), then saves: the next start must see the new definitions
+		if len(ct.tpls) > 0 {
+			kinds := e.tplKinds()
+			mod := content{name: ct.name + "+redefined"}
+			for j, ts := range ct.tpls {
+				if j%3 == 0 {
+					nt := kinds[(j/3+1)%len(kinds)]
+					if fmt.Sprintf("%+v", nt.All()) == fmt.Sprintf("%+v", ts.t.All()) {
+						nt = kinds[(j/3+2)%len(kinds)]
+					}
+					nt.ID = ts.t.ID
+					mod.tpls = append(mod.tpls, tplSpec{ts.addr, nt})
+				}
+			}
+			apply := func(cc *flowh.Caches) {
+				for _, ts := range mod.tpls {
+					st := ref.Set{Kind: ref.SetTemplates, Templates: []ref.Template{ts.t}}
+					if e.v9 && ts.t.Options {
+						st.Pad = (4 - (6+4*len(ts.t.All()))%4) % 4
+					}
+					flowh.Decode(e.v9, ts.addr, (&ref.Msg{V9: e.v9, Sets: []ref.Set{st}}).Encode(nil), cc)
+				}
+			}
+			want := e.build(ct)
+			apply(want)
+			second := e.load(p) // "the next run": starts from the file
+			apply(second)
+			pm := filepath.Join(tmpDirGet(), "redefined.json")
+			copyFile(p, pm) // the run saves to the file it started from
+			e.dump(second, pm)
+			wa, _ := e.entries(want)
+			ga, errg := e.entries(e.load(pm))
+			if errg != nil || strings.Join(wa, "\n") != strings.Join(ga, "\n") {
+				c.Violation(proto(v9)+":roundtrip:redefinition-after-load-not-saved", fmt.Sprintf("a run loaded the file, %d of its %d templates were re-announced with another definition, it saved: the file does not hold the cache of that run (%v)", len(mod.tpls), len(ct.tpls), errg), what())
 			}
 		}
 		// second generation: dump the loaded cache again, must be identical content
